@@ -169,7 +169,12 @@ START_MENU = [(None, True), (T_OK, True), ("2020-01-01T00:00:00", True), (Time(5
 ALIGN_MENU = [("bottom", True), ("center", True), ("top", True), ("Center", False), ("middle", False), (None, False), (0, False),
               ("", False)]
 POL_MENU = [("linear", True), ("circular", True), ("Linear", False), ("lin", False), (None, False), (1, False)]
-META_MENU = [(None, True), ({}, True), ({"k": [1, 2]}, True), ([("a", 1)], True), (5, False), ("ab", False), ([1, 2], False)]
+import collections as _c
+import types as _t
+META_MENU = [(None, True), ({}, True), ({"k": [1, 2]}, True), ([("a", 1)], True), (5, False), ("ab", False), ([1, 2], False),
+             # mappings that are not dicts: accepted (as on the unchanged code) but the signal must then hold a plain dict
+             (_t.MappingProxyType({"a": 1}), True), (_c.ChainMap({"a": 1}, {"b": 2}), True), (_c.OrderedDict(a=1), True),
+             (_c.UserDict({"a": 1}), True)]
 
 
 def menus(cls):
